@@ -114,7 +114,9 @@ def onRequirementCandidates (U : Universe) (sid : SoR) (r : Req) (candidates : L
       | some l => s.requiresClauses.map (fun e => if e.1 == pvar then (e.1, l ++ [(r, id)]) else e)
       | none => s.requiresClauses ++ [(pvar, [(r, id)])]
     { s with requiresClauses := rc }
-  if conflict then
+  -- only the clause of an installed solvable conflicts with the partial solution; for a solvable encoded ahead of
+  -- being selected the clause is merely unit
+  if conflict && valueOf s pvar == some true then
     modify fun s => { s with conflicting := s.conflicting ++ [id] }
   else if candidates.all (·.isEmpty) then
     modify fun s => { s with negAssertions := s.negAssertions ++ [(pvar, id)] }
@@ -133,7 +135,7 @@ def onConstraintCandidates (sid : SoR) (vs : Nat) (cands : List Nat) : M Unit :=
     match watch with
     | some _ => startWatching id
     | none => modify fun s => { s with negAssertions := s.negAssertions ++ [(pvar, id)] }
-    if conflict then
+    if conflict && valueOf s pvar == some true then
       emit (.conflicting id)
       modify fun s => { s with conflicting := s.conflicting ++ [id] }
 
